@@ -15,7 +15,7 @@ func init() {
 	register(&Property{
 		ID:      "C12",
 		Run:     runC12,
-		Explain: "Structure of the fail-over logic in client.(*Client).sendToKDC, dialSendUDP/TCP and sendTCP: (1) on every return with a nil error the bytes returned are, on every path and for every phi operand, the result of a sendKDCTCP/sendKDCUDP call whose error was tested nil on that path (catches results bound to a shadowed variable or zero-value operands); (2) transport order: udp_preference_limit 1 ⇒ TCP only; small requests UDP first with TCP tried on every UDP failure except a KRB-ERROR other than RESPONSE_TOO_BIG (52); large requests TCP first with UDP tried on every non-KRB-ERROR failure; (3) KRB-ERROR arms return the asserted KRBError itself; (4) the dial loops visit i = 1…len(kdcs), every failure continues with the next server, the only in-loop return is a success, the error after the loop is non-nil, SetDeadline precedes each send and the dial timeout is a finite constant; (5) TCP framing: 4-byte big-endian length of exactly the request, reply sized from the 4-byte big-endian header; (6) no recursion through sendToKDC.",
+		Explain: "Structure of the fail-over logic in client.(*Client).sendToKDC, dialSendUDP/TCP and sendTCP: (1) on every return with a nil error the bytes returned are, on every path and for every phi operand, the result of a sendKDCTCP/sendKDCUDP call whose error was tested nil on that path (catches results bound to a shadowed variable or zero-value operands); (2) transport order: udp_preference_limit 1 ⇒ TCP only; small requests UDP first with TCP tried on every UDP failure except a KRB-ERROR other than RESPONSE_TOO_BIG (52); large requests TCP first with UDP tried on every non-KRB-ERROR failure; (3) KRB-ERROR arms return the asserted KRBError itself; (4) the dial loops visit i = 1…len(kdcs), every failure continues with the next server, the only in-loop return is a success, the error after the loop is non-nil, SetDeadline precedes each send and the dial timeout is a finite constant; (5) TCP framing: 4-byte big-endian length of exactly the request, reply sized from the 4-byte big-endian header; (6) no recursion through sendToKDC. Added: the bytes written to the TCP connection are BE32(len(request)) ‖ request by placement (including hand-written shifts); order/fall-back rules follow per-strategy helpers; every transport attempt asserts its error to KRBError and returns it as such; a reply received in a dial loop is returned, not skipped; the UDP receive buffer has at least 4096 bytes.",
 		NotDecided: []string{
 			"socket-level behaviour per fault pattern (runtime); a short first read of the TCP length header (bare conn.Read) is printed as a note",
 			"GetKDCs returns a permutation of the configured servers (value property; its mutation side effect is C11)",
